@@ -81,6 +81,18 @@ func NewExecutor(p *Program, s *Specs) *Executor {
 
 func (ex *Executor) errf(format string, a ...interface{}) {
 	msg := fmt.Sprintf(format, a...)
+	// a contract that names something the function no longer has (a renamed or removed local, a loop or call site
+	// that moved into a helper) lost its anchor: the unit is undecided, its obligations are not violations
+	if strings.HasPrefix(msg, "anchor-missing") && !strings.Contains(msg, "never reached") {
+		// (an anchored call that is never reached is different: the code stopped making a call the contract relies on -
+		// the obligations that then fail are reported)
+		ex.anchorLost = true
+	} else if nm := unknownIdent(msg); nm != "" && ex.P != nil {
+		if fn := ex.P.Funcs[ex.unitKey]; fn != nil && !hasSourceName(fn, nm) {
+			ex.anchorLost = true
+			msg = "anchor-missing " + ex.unitKey + ": " + msg
+		}
+	}
 	for _, e := range ex.Errs {
 		if e == msg {
 			return
@@ -150,6 +162,17 @@ func (ex *Executor) VerifyUnit(key string, spec *FuncSpec) {
 	if len(fn.Blocks) == 0 {
 		ex.errf("%s has no body", key)
 		return
+	}
+	nloops := 0
+	for _, b := range fn.Blocks {
+		if isLoopHead(b) {
+			nloops++
+		}
+	}
+	for k := range spec.Loops {
+		if k >= nloops {
+			ex.errf("anchor-missing %s: the contract speaks about loop %d, the function has %d loop(s) (the loop moved into a helper or was removed)", key, k, nloops)
+		}
 	}
 	st := &State{heap: map[string]*Term{}, globals: map[*ssa.Global]Val{}, alloc: Sym("alloc@0", SInt), segStart: "entry", segHeap: map[string]*Term{}, birth: map[string]*Term{}, segSpec: spec}
 	st.assume(Ge(st.alloc, Num(0)))
